@@ -1332,6 +1332,25 @@ fn literal_unknown_commands() -> &'static [Vec<u8>] {
 
 /// A random line that must be rejected.
 pub fn faulty_line(r: &mut Rng) -> Line {
+    // a supported command word with one or two bytes glued to it that a
+    // fixed-width or NUL-terminated comparison would not see (NUL, control
+    // bytes, DEL, bytes >= 0x80): another word, hence not a command
+    if r.chance(1, 12) {
+        let ci = r.below(CMDS.len());
+        let mut bytes = CMDS[ci].word.as_bytes().to_vec();
+        for _ in 0..r.range(1, 2) {
+            bytes.push(*r.pick(&[0x00u8, 0x00, 0x01, 0x7f, 0x80, 0xff, 0x1b, 0x08]));
+        }
+        match r.below(3) {
+            0 => {}
+            1 => bytes.push(b' '),
+            _ => {
+                bytes.extend(separator(r));
+                bytes.extend(payload(r, "ascii", Kind::Comment));
+            }
+        }
+        return Line { bytes, want: Want::Err(ErrKind::Unsupported), cmd: "unknown", arg: "command+invisible-byte" };
+    }
     let lits = literal_unknown_commands();
     if !lits.is_empty() && r.chance(1, 8) {
         let mut bytes = lits[r.below(lits.len())].clone();
